@@ -159,6 +159,20 @@ T('reshape(A,-1)', 'A', lambda r: algopy.reshape(r, (int(np.prod(np.shape(r))),)
 T('reshape(V,(3,1))', 'V', lambda r: algopy.reshape(r, (3, 1)), tags=('core', 'poly', 'view'))
 T('M.reshape((1,9))', 'M', lambda r: r.reshape((1, 9)), tags=('core', 'poly', 'view'))
 
+# ---------------------------------------------------------------- three-dimensional operands (type T = (2,2,3))
+for ax in [None, 0, 1, 2, -1, -2, -3]:
+    T('sum(T,%s)' % ax, 'T', (lambda r, ax=ax: algopy.sum(r, axis=ax)), tags=('core', 'poly'))
+for k, ix in {'[0]': 0, '[:,1]': (slice(None), 1), '[...,0]': (Ellipsis, 0), '[1,::-1]': (1, slice(None, None, -1)), '[:,:,1:]': (slice(None), slice(None), slice(1, None))}.items():
+    T('T' + k, 'T', (lambda r, ix=ix: r[ix]), tags=('core', 'poly', 'view'))
+T('dot(T,V)', 'TV', algopy.dot, tags=('core', 'poly'))
+T('dot(T,M)', 'TM', algopy.dot, tags=('core', 'poly'))
+T('dot(T,cV)', 'T', lambda r: algopy.dot(r, cV), tags=('core', 'poly'))
+# advanced (list) indexing: a copy, not a view.  The properties speak of BASIC indexing only, so these templates are used
+# for recording/replay values (C05) and excluded from the reverse-mode enumerations (tag 'fancy').
+T('V[[0,2]]', 'V', lambda r: r[[0, 2]], tags=('fancy',))
+T('M[[0,2]]', 'M', lambda r: r[[0, 2]], tags=('fancy',))
+T('T[[1,0]]', 'T', lambda r: r[[1, 0]], tags=('fancy',))
+
 # ---------------------------------------------------------------- reductions
 for ax in [None, 0, 1, -1, -2]:
     T('sum(M,%s)' % ax, 'M', (lambda r, ax=ax: algopy.sum(r, axis=ax)), tags=('core', 'poly'))
@@ -291,12 +305,65 @@ T('setV[0]=2.0', 'V', _csetter(0, 2.0), tags=('core', 'poly', 'buf'), mut=True, 
 T('setV[1:]=cV2', 'V', _csetter(slice(1, None), cV[:2]), tags=('core', 'poly', 'buf'), mut=True, ret=0)
 T('setM[0]=cV', 'M', _csetter(0, cV), tags=('core', 'poly', 'buf'), mut=True, ret=0)
 
+# ---------------------------------------------------------------- adapters as instructions + raw linear algebra
+# (used by the fan-out programs: the direct argument of the operation is a register that is consumed again later)
+T('G(M)', 'M', lambda r: r + cK, tags=('adapter',))
+T('sym(M)', 'M', lambda r: r + r.T + cD, tags=('adapter',))
+T('spd(M)', 'M', lambda r: algopy.dot(r, r.T) + cI, tags=('adapter',))
+
+
+def _issym(r):
+    m = np.asarray(r, dtype=float)
+    return m.ndim == 2 and m.shape[0] == m.shape[1] and np.allclose(m, m.T, atol=1e-12)
+
+
+def _rawcond(r):
+    m = np.asarray(r, dtype=float)
+    return m.shape == (3, 3) and np.linalg.cond(m) < 30
+
+
+def _rawsym(r):
+    if not _issym(r):
+        return False
+    w = np.linalg.eigvalsh(np.asarray(r, dtype=float))
+    return float(np.min(np.diff(w))) > 0.3
+
+
+def _rawspd(r):
+    return _issym(r) and float(np.min(np.linalg.eigvalsh(np.asarray(r, dtype=float)))) > 0.3
+
+
+def _rawsv(r):
+    m = np.asarray(r, dtype=float)
+    if m.shape != (3, 3):
+        return False
+    sv = np.linalg.svd(m, compute_uv=False)
+    return float(np.min(np.abs(np.diff(sv)))) > 0.15 and float(sv.min()) > 0.15
+
+
+T('inv(M)raw', 'M', algopy.inv, dom=_rawcond, tags=('raw',))
+T('solve(M,M)raw', 'MM', algopy.solve, dom=_rawcond, tags=('raw',))
+T('det(M)raw', 'M', algopy.det, dom=_rawcond, tags=('raw',))
+T('logdet(M)raw', 'M', algopy.logdet, dom=_rawspd, tags=('raw',))
+T('cholesky(M)raw', 'M', algopy.cholesky, dom=_rawspd, tags=('raw',))
+T('expm(M)raw', 'M', lambda r: algopy.expm(r * 0.1), dom=None, tags=('raw',))
+for i in (0, 1):
+    T('qr(M)raw[%d]' % i, 'M', (lambda r, i=i: algopy.qr(r)[i]), dom=_rawcond, tags=('raw',))
+    T('eigh(M)raw[%d]' % i, 'M', (lambda r, i=i: algopy.eigh(r)[i]), dom=_rawsym, tags=('raw',))
+for i in (0, 1, 2):
+    T('lu(M)raw[%d]' % i, 'M', (lambda r, i=i: algopy.lu(r)[i]), dom=_rawcond, tags=('raw',))
+    T('svd(M)raw[%d]' % i, 'M', (lambda r, i=i: algopy.svd(r)[i]), dom=_rawsv, tags=('raw',))
+RAW_PRE = {'inv(M)raw': 'G(M)', 'solve(M,M)raw': 'G(M)', 'det(M)raw': 'G(M)', 'logdet(M)raw': 'spd(M)', 'cholesky(M)raw': 'spd(M)', 'expm(M)raw': 'G(M)',
+           'qr(M)raw[0]': 'G(M)', 'qr(M)raw[1]': 'G(M)', 'eigh(M)raw[0]': 'sym(M)', 'eigh(M)raw[1]': 'sym(M)', 'lu(M)raw[0]': 'G(M)', 'lu(M)raw[1]': 'G(M)',
+           'lu(M)raw[2]': 'G(M)', 'svd(M)raw[0]': 'G(M)', 'svd(M)raw[1]': 'G(M)', 'svd(M)raw[2]': 'G(M)'}
+
 PRELUDE = {
     'S0': lambda x: x[0], 'S1': lambda x: x[1],
     'V0': lambda x: x[0:3], 'V1': lambda x: x[3:6],
     'M0': lambda x: algopy.reshape(x[3:12], (3, 3)), 'M1': lambda x: algopy.reshape(x[0:9], (3, 3)),
+    'T0': lambda x: algopy.reshape(x, (2, 2, 3)), 'T1': lambda x: algopy.reshape(x[::-1], (2, 2, 3)),
 }
-PRELUDE_TYPE = {'S0': 'S', 'S1': 'S', 'V0': 'V', 'V1': 'V', 'M0': 'M', 'M1': 'M'}
+PRELUDE_TYPE = {'S0': 'S', 'S1': 'S', 'V0': 'V', 'V1': 'V', 'M0': 'M', 'M1': 'M', 'T0': 'T', 'T1': 'T'}
 
 
 def shape_type(shape):
@@ -307,6 +374,8 @@ def shape_type(shape):
         return 'V'
     if shape == (3, 3):
         return 'M'
+    if shape == (2, 2, 3):
+        return 'T'
     return 'O'
 
 
@@ -429,7 +498,7 @@ def in_domain(prog, base_points):
 
 # ---------------------------------------------------------------- program enumeration
 def accepts(tpl_type, reg_type):
-    return tpl_type == 'A' and reg_type in 'SVMO' or tpl_type == reg_type
+    return tpl_type == 'A' and reg_type in 'SVMTO' or tpl_type == reg_type
 
 
 def _default_prelude(ins):
@@ -448,20 +517,23 @@ def _default_prelude(ins):
     return out
 
 
-def depth1(names=None, poly=False):
+def depth1(names=None, poly=False, fancy=False):
     """every template instantiated on prelude registers; 'A' operands are instantiated on V and on M
     (and on S for binary arithmetic broadcasting)."""
     progs = []
     for tn, t in TEMPLATES.items():
         if names is not None and tn not in names:
             continue
-        if t.mut:
+        if t.mut or t.tags & {'adapter', 'raw'} or ('fancy' in t.tags and not fancy):
             continue
         if 'A' in t.ins:
             if len(t.ins) == 1:
                 combos = [['V0'], ['M0']] + ([['S0']] if ('core' in t.tags or 'buf' in t.tags) else [])
+                if t.tags & {'core', 'elem'}:
+                    combos.append(['T0'])
             else:
                 combos = [[a, b] for a in ('S0', 'V0', 'M0') for b in ('S1', 'V1', 'M1')]
+                combos += [['T0', 'T1'], ['T0', 'V1'], ['S0', 'T1']]
                 if not tn.startswith(('add', 'sub', 'mul', 'div')):
                     combos = [['V0', 'V1'], ['M0', 'M1']]
         else:
@@ -497,7 +569,7 @@ def mutable_after(prog):
     return mut
 
 
-def extend(prog, names=None, use_older=False):
+def extend(prog, names=None, use_older=False, fancy=False):
     """all type-correct one-instruction extensions of prog whose new instruction consumes the latest
     result in at least one operand; other operands come from the default prelude registers (and, if
     use_older, from the result before)."""
@@ -519,6 +591,10 @@ def extend(prog, names=None, use_older=False):
     out = []
     for tn, t in TEMPLATES.items():
         if names is not None and tn not in names:
+            continue
+        if names is None and t.tags & {'adapter', 'raw'}:
+            continue
+        if 'fancy' in t.tags and not fancy:
             continue
         dflt = _default_prelude(t.ins)
         slots = []
@@ -545,6 +621,42 @@ def extend(prog, names=None, use_older=False):
                 continue
             out.append(cand)
     return out
+
+
+def fanout_programs():
+    """for EVERY operation: [pre -> r0 ; op(r0, ...) -> r1 ; A.sum()<-r1 -> r2 ; mul(A,A)<-r0,r2]: the direct argument r0 of the
+    operation is consumed again by a node recorded AFTER the operation (an adjoint that is assigned instead of accumulated
+    shows), for all operand types"""
+    progs = []
+    for tn, t in TEMPLATES.items():
+        if t.mut or 'adapter' in t.tags or 'fancy' in t.tags or t.name in ('A.sum()',):
+            continue
+        if 'raw' in t.tags:
+            pres = [(RAW_PRE[tn], 'M0')]
+        elif t.ins[0] == 'A':
+            pres = [('copy(A)', 'V0'), ('copy(A)', 'M0'), ('copy(A)', 'T0')]
+        elif t.ins[0] in 'SVMT':
+            pres = [('copy(A)', t.ins[0] + '0')]
+        else:
+            continue
+        for pre, src in pres:
+            dflt = _default_prelude(t.ins)
+            # the second operand of a binary template comes from the *1 prelude register of its type
+            rest = []
+            for i, tt in enumerate(t.ins[1:], start=1):
+                if tt == 'A':
+                    rest.append(src[0] + '1')
+                else:
+                    rest.append(tt + '1')
+            prog = [[pre, [src]], [tn, ['r0'] + rest], ['A.sum()', ['r1']], ['mul(A,A)', ['r0', 'r2']]]
+            try:
+                y, _ = run(prog, np.array(POINTS[0], dtype=float))
+            except Exception:
+                continue
+            if y is None or not hasattr(y, 'shape'):
+                continue
+            progs.append(prog)
+    return progs
 
 
 SCENARIOS = {
